@@ -30,13 +30,13 @@ CHECKS = {
              note="faults only in file-related syscalls; quick tier samples (index, errno) with a seed; thorough enumerates all", ref="6/C10"),
  "C12": dict(tech="TLC sequential model DoMkdirAll (RootOps.tla) generating every path spelling + two-process model Mkdir2.tla (state-graph-derived schedules) + two-process ptrace schedules (<=2 preemptions) judged by TLC postconditions (TraceFS!PostViolations) and action-level trace validation (TraceMkdir2.tla)",
              text="Every spelling of the bounded instance is executed traced on both backends; two concurrent mkdir_all callers are interleaved at relevant-syscall granularity; TLC checks on the real snapshots: handle = in-root resolution, only new directories named by the path were added with the requested mode, nothing removed, all concurrent callers succeed.",
-             note="umask 022; no setgid directories; schedules bounded to two preemptions; known finding F-C12-empty-path listed", ref="6/C12"),
+             note="umask 022 (0 in the two-user family: two different unprivileged users race in a world-writable tree); no setgid directories; schedules bounded to two preemptions; known finding F-C12-empty-path listed", ref="6/C12"),
  "C13": dict(tech="TLC sequential model DoRemoveAll (RootOps.tla) generating every path spelling + two-process model Remove2.tla (any listing order, attacker exchange) + two-process ptrace schedules and attacker sweeps judged by TLC postconditions (TraceFS!PostViolations) and action-level trace validation (TraceRemove2.tla)",
              text="TLC checks on the real snapshots: nothing added, everything removed lies in the initial subtree of the named entry, the entry and its whole subtree are gone on success, dot names refused, concurrent callers all succeed.",
-             note="schedules bounded to two preemptions", ref="6/C13"),
+             note="schedules bounded to two preemptions; permission dimension (directories the caller may not modify, sticky directories) for an unprivileged caller with effective uid 65534 and gid 0", ref="6/C13"),
  "C14": dict(tech="TLC (RootOps.tla) computes expected errno class and final tree for every (tree, op, spelling); replayed three-way: library with openat2, library without, and the harness' raw *at call on (openat2-RESOLVE_IN_ROOT parent, name)",
              text="ExactEffect: outcome and final tree of create/create_file/remove_file/remove_dir/rename equal those of the corresponding *at call on (in-root parent, final name); kernel model cross-checked (0 mismatches on the unchanged tree).",
-             note="bounded instance (two trees, spellings <= 2-3 components); modes compared as inode kind", ref="6/C14"),
+             note="bounded instance (three trees, spellings <= 2-3 components); modes compared as inode kind; every fifth case is called from a thread with a private descriptor table; 400 cases repeated by an unprivileged caller on mixed-ownership trees against the raw call by the same caller", ref="6/C14"),
 
  "C09": dict(tech="TLC enumeration of Reopen.tla (inode kind x access mode x extra flag x descriptor number x history) replayed through Handle::reopen and pathrs_reopen on both feature sets, plus a private-descriptor-table thread scenario",
              text="Every enumerated case: same inode as the handle, requested access mode/flags + O_CLOEXEC, ELOOP for symlink handles, creation flags refused, independence of the descriptor number (0, 1, 100) and of rename/replace/unlink histories; a thread with unshare(CLONE_FILES) whose leader holds decoys at the same numbers.",
@@ -59,7 +59,7 @@ CHECKS = {
              note="the worker's handle is ProcfsHandle::new(); some /proc files legitimately refuse to open (accepted if both resolvers agree); known finding F-C07-nonabsolute-magiclink-enoent listed", ref="6/C07"),
  "C08": dict(tech="TLC model checking of ProcRetry.tla (HandlesBounded, MissingIsENOENT; recursive variant must fail) + ptrace-traced real lookups on re-mounted /proc (hidepid=1/2/ptraceable, subset=pid) as root and as an unprivileged caller, judged by TLC (TraceRetry.tla)",
              text="Every host /proc option x privilege x constructor x base x path kind x operation: procfs root descriptors created, peak descriptors and syscall count per call are taken from the raw trace; missing paths must be ENOENT, existing ones must not.",
-             note="'unprivileged' = effective uid switch (no effective capabilities); bounds 6 handles / 24 descriptors / 4000 syscalls", ref="6/C08"),
+             note="'unprivileged' = effective uid switch (no effective capabilities); 'privileged without fsopen' = seccomp ENOSYS on fsopen (open_tree clones) or on the whole new mount API; bounds 6 handles / 24 descriptors / 4000 syscalls", ref="6/C08"),
 }
 
 NA = {
